@@ -490,3 +490,56 @@ check(
     ),
     assumptions=CLIENT_ASSUME,
 )
+
+check(
+    "C11", "pool: one holder per connection, dead/expired never reissued", "exploration",
+    rule=("rapid state machine (T.Repeat) inside a synctest bubble over chpool with a simulated dialer whose servers answer "
+          "by query body (OK, exception, cut, never): MaxConns 1-4, MinConns 0-2, lifetime / idle time / health-check period "
+          "from small virtual durations; actions Acquire (30 ms timeout, each new handle probes with a tagged query that "
+          "reveals its connection), Do OK/exception/cut/hang+cancel, Ping, Release of ANY handle any number of times, "
+          "advance the clock, Pool.Do/Pool.Ping, bursts of 2-6 parallel Pool.Do, asynchronous Close; invariants at quiescent "
+          "points (synctest.Wait) after every step. Distinct = hash of (configuration, history). Non-trivial = >= 2 "
+          "concurrently held handles together with a repeated Release, or an expiry that was checked."),
+    quick=[unit("pool", "^TestC11", checks=2500, timeout=900)],
+    thorough=[unit("pool", "^TestC11", checks=40000, timeout=8000, shards=16)],
+    manifest=dict(
+        text="Model-based stateful testing of the pool: the scripted servers must never see a request while another is in "
+             "flight on the same connection, live handles map to distinct connections, open connections <= MaxConns, an issued "
+             "connection always works (a connection whose client was closed or that outlived its lifetime at release is never "
+             "reissued), repeated Release never panics and changes nothing, Stat() agrees with the model, idle expired "
+             "connections are closed by the health check, and after Close + release of all handles every dialed connection "
+             "is closed.",
+        design_ref="DESIGN.md 4 C11",
+        note="Interleavings inside puddle are explored only through the Go scheduler in bursts. Connections die only during "
+             "calls (never silently while idle), so a failing probe is always a pool defect.",
+        technique="model-based stateful property testing (rapid T.Repeat) in synctest bubbles with virtual time",
+    ),
+    assumptions=CLIENT_ASSUME,
+)
+
+check(
+    "C12", "no data race inside the library", "exploration",
+    rule=("Binary built with -race (GORACE=halt_on_error=0, log per process). rapid draws UNGATED scenarios on the "
+          "direction-independent simulated connection (the two directions share no lock; the only cross-direction edge is the "
+          "causal one through the reactive server): C03 server scripts with all callbacks; streamed INSERT of 2-5 rounds while "
+          "the server streams progress / profile events / logs after every block; the same with Client.Close from a foreign "
+          "goroutine or a cancellation after a drawn delay; Ping afterwards; OpenTelemetryInstrumentation on/off; callbacks "
+          "yield at drawn points; and a pool shared by 2-8 goroutines (Do OK/exception/cut, Ping, Acquire+hold+Stat+Release) "
+          "with a 1 ms health check, 5 ms idle time and 20 ms lifetime. Oracle = Go race detector; a report counts when either "
+          "access stack has a non-test ch-go frame (de-duplicated by the pair of top library frames). Distinct = hash of the "
+          "scenario. Non-trivial = a scenario in which sender, receiver and a foreign or pool goroutine all run (every "
+          "scenario except plain scripts)."),
+    quick=[unit("client", "^TestC12", variant="race", checks=1200, timeout=900),
+           unit("pool", "^TestC12|^TestC11", variant="race", checks=500, timeout=900)],
+    thorough=[unit("client", "^TestC12", variant="race", checks=20000, timeout=8000, shards=10),
+              unit("pool", "^TestC12|^TestC11", variant="race", checks=10000, timeout=8000, shards=6)],
+    manifest=dict(
+        text="Exploration with the Go race detector as oracle over generated concurrent scenarios; absence of reports over the "
+             "executions generated, not absence of races.",
+        design_ref="DESIGN.md 4 C12",
+        note="The detector needs both accesses to execute in one run, not the bad interleaving itself. Races confined to "
+             "third-party code (puddle, otel SDK) are out of scope unless a ch-go frame is on either stack.",
+        technique="race-detector-instrumented property testing of generated concurrent scenarios",
+    ),
+    assumptions=CLIENT_ASSUME + ["the Go race detector reports only real races"],
+)
